@@ -769,7 +769,38 @@ class World:
             self.enc.typed[id(inst)] = (tn, [valid[0].value])
             self.enc.keep.append(inst)
             out.append(Cand("list_instance", inst, "accept"))
-        return out + self.foreign_list_cands(tn)
+        return out + self.mixed_cands(tn, elems) + self.foreign_list_cands(tn)
+
+    def mixed_cands(self, tn, elems):
+        """lists of three in which the element at position p (0..2) already is an instance of the element type (as if
+        taken from another record's field) and the other two are raw: valid, invalid, of a wrong kind, None.  The
+        oracle is per element: every element of the stored list is of the element type, or the whole assignment is
+        refused and leaves the slot unchanged."""
+        et = tn[:-2]
+        if et in ("record", "stringlist", "dictlist", "dynamic"):
+            return []
+        raw = [c for c in elems if id(c.value) not in self.enc.typed]
+        valid = next((c for c in raw if c.expect == "accept"), None)
+        invalid = next((c for c in raw if c.expect == "reject"), None)
+        wrong = next((c for c in raw if c.kind == "object"), None)
+        if valid is None:
+            return []
+        out = []
+        for p in range(3):
+            for label, other in (("valid", valid), ("invalid", invalid), ("wrong", wrong), ("none", Cand("none", None))):
+                if other is None:
+                    continue
+                try:
+                    inst = self.enc.instance(et, valid.value)
+                except Exception:  # noqa: the type has no instance of this payload
+                    return out
+                items = [other.value, other.value, other.value]
+                if label != "valid":
+                    items[(p + 1) % 3] = valid.value          # one valid raw, one `other` raw, one typed
+                items[p] = inst
+                exp = "reject" if other.expect == "reject" else ("accept" if label == "valid" else None)
+                out.append(Cand("mixed_p%d_%s" % (p, label), items, exp, set(other.classes)))
+        return out
 
     def classify_list(self, et, c):
         """a non-list value handed to a list field: what its iteration yields decides the class"""
